@@ -173,8 +173,8 @@ func init() {
 		Required: []string{"roundtrips", "with.literals", "with.bang.comments", "fuzz.accepted", "probes"},
 		Streams: []fw.Stream{
 			{Name: "probes", Quick: len(c05Probes), Thorough: len(c05Probes), Run: c05Probe},
-			{Name: "generated", Quick: 150000, Thorough: 4000000, Run: c05Generated},
-			{Name: "fuzz", Quick: 200000, Thorough: 5000000, Run: c05Fuzz},
+			{Name: "generated", Quick: 150000, Thorough: 8000000, Run: c05Generated},
+			{Name: "fuzz", Quick: 200000, Thorough: 10000000, Run: c05Fuzz},
 		},
 	})
 }
